@@ -26,6 +26,7 @@ import (
 	"regexp"
 	"strings"
 	"sync"
+	"sync/atomic"
 	"time"
 	"unsafe"
 
@@ -75,6 +76,18 @@ func newRedisWorld(w *world) {
 		w.dir = redisV2Root
 		w.keys = ksrig.NewV2Keys()
 	}
+}
+
+var (
+	redisUnknownCmds   int64 // commands the stand-in does not implement, summed over all servers of the run
+	redisForeignDamage int64 // foreign keys found changed when a world was disposed
+	redisWorlds        int64
+)
+
+func redisNoteDispose(w *world) {
+	atomic.AddInt64(&redisWorlds, 1)
+	atomic.AddInt64(&redisUnknownCmds, int64(w.srv.Unknown()))
+	atomic.AddInt64(&redisForeignDamage, int64(w.foreignChanged()))
 }
 
 // settle lets the v2 lock's time to live pass (virtual clock).
@@ -434,6 +447,13 @@ func (m *monitor) redisCaseStats(c *caseCtx) {
 }
 
 func redisGuards(r *ev.Run) {
+	if n := atomic.LoadInt64(&redisUnknownCmds); n > 0 {
+		r.Inconclusive(fmt.Sprintf("fakeredis: unknown command received %d times (the stand-in does not cover what Acra asked for)", n))
+	}
+	r.Count("redis_servers_used", atomic.LoadInt64(&redisWorlds))
+	// measured, not judged: the property speaks about the keystore's keys; keys of other applications in the same database
+	// (other prefixes, look-alike prefixes) were checked on every server before it was closed
+	r.Count("redis_foreign_keys_found_changed", atomic.LoadInt64(&redisForeignDamage))
 	r.RequireAtLeast("redis_fault_runs_fired:storage-call", 100)
 	r.RequireAtLeast("redis_fault_runs_fired:command", 200)
 	r.RequireAtLeast("redis_crash_snapshots_probed", 100)
